@@ -9,6 +9,7 @@ CONSTANTS
   FineTime = FALSE
   SlowWrites = FALSE
   SlowRtx = "no"
+  IgnoreToo = FALSE
   FailAts = {0, 1, 2, 7}
   MaxDepth = 99
 ACTION_CONSTRAINT EmitEdge
